@@ -16,9 +16,12 @@ THEOREMS = ["OQuPyVerif.Props.C04.trace_preserved", "OQuPyVerif.Props.C04.hermit
             "OQuPyVerif.Props.C10.site_dissipator_trace_annihilating",
             "OQuPyVerif.Props.C10.nn_dissipator_trace_annihilating",
             "OQuPyVerif.Props.C10.dissipators_hermiticity_preserving",
+            "OQuPyVerif.Props.C10.site_dissipation_is_gksl",
+            "OQuPyVerif.Props.C10.site_liouvillian_first_order_kraus",
             "OQuPyVerif.Props.C11.gibbs_trace_one", "OQuPyVerif.Props.C11.gibbs_hermitian",
             "OQuPyVerif.Props.C11.gibbs_normalised_hermitian"]
-EXTRA_MODULES = ["OQuPyVerif.Props.C10", "OQuPyVerif.Props.C11", "OQuPyVerif.Props.C04Pos"]
+EXTRA_MODULES = ["OQuPyVerif.Props.C10", "OQuPyVerif.Props.C11", "OQuPyVerif.Props.C04Pos",
+                 "OQuPyVerif.Props.C10Gksl"]
 TOL = 1e-8
 HYP_TOL = 1e-20      # residuals are squared moduli
 
@@ -100,6 +103,28 @@ def physical_paths(res):
     state they report has unit trace and is Hermitian (property text)"""
     import oqupy
     from oqupy import operators as op
+    # (0) hand-built process tensors of an explicit quantum environment (ancilla; rank-4 and rank-3
+    #     storage, both classes): the reported states are partial traces of a joint state, so they
+    #     are physical INCLUDING positivity at every step (the caps close the intermediate steps)
+    from . import run_C03
+    for variant, cls, seed_ in (("rank4", "simple", 7), ("rank4", "file", 8), ("rank3", "simple", 9),
+                                ("rank4-basis", "simple", 10)):
+        case = run_C03.ancilla_case(random.Random(seed_), variant, cls, n=3, e=2)
+        pt = run_C03.build_pt(case["spec"], case["d"], 3, cls)
+        try:
+            sts = run_C03.run_real(oqupy.System(case["ham"]), case["rho0"], [pt], 3, None)
+        finally:
+            run_C03.drop_pt(pt)
+        for k, st in enumerate(sts):
+            bad = physical(st.reshape(case["d"], case["d"]), True, tol=1e-9)
+            res.case("ancilla:%s:%s:%d" % (variant, cls, k), True, None)
+            if bad:
+                res.fail("ancilla process tensor (%s, %sProcessTensor): state of step %d" % (variant, cls, k),
+                         {"api": "compute_dynamics", "process_tensor": "%s tensors of a 2-level ancilla "
+                          "(exact joint evolution), compute_caps()" % variant, "class": cls,
+                          "gen_seed": seed_, "step": k, "complaints": bad})
+                break
+        res.count("ancilla-built process tensor:%s:%s" % (variant, cls))
     # (a) a process tensor computed straight into an HDF5 file: ALL recorded states, not only the last
     corr = oqupy.PowerLawSD(alpha=0.3, zeta=1.0, cutoff=3.0, cutoff_type="exponential", temperature=0.4)
     bath = oqupy.Bath(0.5 * op.sigma("y") + 0.3 * op.sigma("z"), corr)
